@@ -99,6 +99,8 @@ type Tree struct {
 	// Parent[i] = i+1; a layer with several children makes those children SIBLINGS (each with its own directives).
 	Parent []int
 	nextID int
+	// PostWrite, when set, edits the written files (oracle-specific additions that are not part of the resource graph)
+	PostWrite func(fs filesys.FileSystem, root string)
 }
 
 // Chain: the layers a resource loaded by layer li passes through, innermost first.
@@ -1006,6 +1008,9 @@ func (t *Tree) Write(fs filesys.FileSystem, root string) error {
 				return err
 			}
 		}
+	}
+	if t.PostWrite != nil {
+		t.PostWrite(fs, root)
 	}
 	return nil
 }
